@@ -107,6 +107,7 @@ class SimServer:
         self.port = port
         self._sock = SimSock(host, port)
         self.closed = False
+        self.serving = True        # False: bound, not listening yet (create_server(start_serving=False))
         self.closed_at = None
         self.created_at = net.loop.time()
         self._active = 0
@@ -119,7 +120,7 @@ class SimServer:
         return () if self.closed else (self._sock,)
 
     def is_serving(self):
-        return not self.closed
+        return self.serving and not self.closed
 
     def get_loop(self):
         return self.loop
@@ -156,7 +157,12 @@ class SimServer:
         await w
 
     async def start_serving(self):
-        await asyncio.sleep(0)
+        # Server.start_serving(): "_start_serving(); await tasks.sleep(0)"
+        self.serving = True
+        for i in range(max(1, self.net.listen_post_yields)):
+            if self.net.on_listen is not None:
+                self.net.on_listen("post", self.port)
+            await asyncio.sleep(0)
 
     async def serve_forever(self):
         fut = self.loop.create_future()
@@ -558,15 +564,16 @@ class Net:
         self.listeners[port] = srv
         self.servers.append(srv)
         self.bind_log.append((port, None))
-        try:
-            for i in range(self.listen_post_yields):
-                if self.on_listen is not None:
-                    self.on_listen("post", port)
-                await asyncio.sleep(0)
-        except BaseException:
-            # asyncio closes the half-built server when start-up is cancelled
-            srv.close()
-            raise
+        # CPython 3.12 create_server(): "server._start_serving(); await tasks.sleep(0)" - a caller cancelled inside that
+        # sleep never gets the Server object, and nothing closes it: the listener stays bound and accepting (seen on real
+        # sockets, repro/real_cancel_inside_start_server.py).  Earlier versions of this model closed it, which hid that.
+        if not start_serving:
+            srv.serving = False
+            return srv
+        for i in range(self.listen_post_yields):
+            if self.on_listen is not None:
+                self.on_listen("post", port)
+            await asyncio.sleep(0)
         return srv
 
     # --- connections --------------------------------------------------------
@@ -592,7 +599,7 @@ class Net:
         server.out, server.inp = conn.s2c, conn.c2s
         await asyncio.sleep(conn.latency)
         lst = self.listeners.get(port)
-        if lst is None or lst.closed:
+        if lst is None or lst.closed or not lst.serving:
             await asyncio.sleep(conn.latency)
             raise ConnectionRefusedError(errno.ECONNREFUSED, f"simnet: connect to {host}:{port} refused")
         conn.listener = lst
